@@ -1040,7 +1040,7 @@ void vfa_free(void *p) {
  * The kit keeps one bit per table cell (which cells did this workload reach — the reach of the check over the tables that
  * the properties' anchors name) and checks row/col against the table's dimensions: an index outside them is an
  * intra-object overflow that red-zone sanitizers cannot see (digit 7 into a [7][7] table lands in the next row). */
-#ifdef H3_VERIF_HOOKS
+#if defined(H3_VERIF_HOOKS) && __has_include("h3VerifHooks.h") /* a tree older than the hook commit has no table coverage */
 #include "h3VerifHooks.h"
 /* strict = (row, col) are the very indexes the library uses on the table, so a value outside the dimensions is an
  * out-of-bounds look-up; otherwise they only *describe* the look-up's context (leading digit, rotation count, ...) and
